@@ -92,6 +92,17 @@ def run(ctx):
         if k % 2 == 0:
             observe_merge("mrg", vendor, prefix, aclgen.random_acl(rnd, words, prefix, gen="A"), aclgen.random_acl(rnd, words, prefix, gen="B"),
                           rnd_tree(3, prefix))
+    # one row, several rules: specific and general rules, a %global one among them, a rule and the written-out negation of another
+    for k in range(1500 if quick else 25000):
+        vendor, prefix = rnd.choice([("huawei", "undo"), ("cisco", "no")])
+        rules, row = aclgen.overlap_acl(rnd, words, prefix)
+        extra = aclgen.random_acl(rnd, words, prefix, 2) if rnd.random() < 0.3 else []
+        acl = rules + extra
+        observe_filter("ovl", vendor, prefix, acl, aclgen.tree_for(rnd, acl, words, prefix, 3, must=row))
+        if k % 3 == 0:
+            cut = rnd.randrange(1, len(rules)) if len(rules) > 1 else 1
+            observe_merge("ovlmrg", vendor, prefix, aclgen.with_gen(rules[:cut], "A"), aclgen.with_gen(rules[cut:] + extra, "B") or aclgen.random_acl(rnd, words, prefix, gen="B"),
+                          aclgen.tree_for(rnd, acl, words, prefix, 3, must=row))
     # catalogue-derived ACLs on TLC-enumerated configurations
     for prof in (["huawei"] if quick else ["huawei", "cisco", "arista"]):
         cat = cases.Catalog(ctx, prof)
